@@ -583,6 +583,7 @@ class Net:
         # "readable" at once)
         self.next_conn_early_data = None
         self.bind_faults = {}   # port -> list of errno|None consumed per attempt
+        self.blackhole_ports = set()    # a connect to these is never answered (SYNs dropped): the system gives up after ~127 s
         self.bind_log = []
         self._next_port = 40000
         self._next_cport = 50000
@@ -643,6 +644,9 @@ class Net:
     async def _create_connection(self, protocol_factory, host=None, port=None, *, ssl=None, **kw):
         if ssl:
             raise NotImplementedError("simnet: no TLS")
+        if port in self.blackhole_ports:
+            await asyncio.sleep(127.0)
+            raise TimeoutError(errno.ETIMEDOUT, f"simnet: connect to {host}:{port} timed out")
         conn = SimConn(self, len(self.conns), host, port)
         self.conns.append(conn)
         if self.conn_policy is not None:
